@@ -20,12 +20,15 @@ TRUSTED = ["instrumentation as for C11"]
 TECHNIQUE = ("Coq proof (numerator non-zero implies every factor positive; acceptance ratio = ratio of the target "
              "products) + model/implementation correspondence under scripted randomness + verified checker on runs")
 LEVEL_TEXT = (
-    "General theorems in coq/Props/C12.v on the Gallina model: every accepted swap creates only the proposal edges "
-    "and each has positive target weight (C12_allowed); the Metropolis ratio equals the ratio of the target "
-    "products after/before (C12_ratio). PARTIAL: the statistical claim that the distance to the target decreases is "
-    "not a per-outcome fact and is not proved (C12_full keeps the statement).")
-LEVEL_NOTE = ("Trusted: Coq kernel; extraction + OCaml driver + Python harness; symmetric targets assumed. "
-              "Partial: convergence towards the target.")
+    "General theorems in coq/Props/C12.v on the Gallina model, for every clean network, every target with non-negative "
+    "entries, all limits, every RNG outcome and swap history: between consecutive accepted states every new edge has a "
+    "pairing of positive target weight and nothing but the proposal edges is created (C12_allowed_partial = the verified "
+    "checker c12_check holds on every model trace); for symmetric targets the numerator/denominator of swap_condition "
+    "are the target products over the proposal / removed edges, i.e. the acceptance ratio is pi(g')/pi(g) (C12_ratio, "
+    "C12_ratio_pi). PARTIAL: the statistical sentence (the distance to the target decreases) is a statement about the "
+    "distribution of runs, false for individual RNG outcomes, and is not proved (C12_full keeps it).")
+LEVEL_NOTE = ("Trusted: Coq kernel; extraction + OCaml driver + Python harness; symmetric targets assumed (DESIGN C12); dyadic "
+              "test data so float products are exact. Partial: convergence towards the target.")
 
 DROP, ZERO = 0.6, 0.4
 
